@@ -19,7 +19,7 @@ for seed in seeds:
                          "no_failing_input_found": "no-failing-input-found" in m.group(6), "summary": m.group(7)})
 assert subprocess.check_output(["git", "-C", "/repo", "status", "--porcelain"]).decode().strip() == "", "/repo not restored"
 meta = {"id": sid, "breaks_property": sid[:3], "change": change, "needs_to_manifest": needs,
-        "confirmed": "harness/seed_verify.sh %s in scratch worktree /tmp/wt-%s: demo exits 0 on the unchanged tree, non-zero with the change; "
+        "confirmed": "harness/seed_verify.sh %s in a scratch worktree of /repo under /tmp (%s): demo exits 0 on the unchanged tree, non-zero with the change; "
                      "the 43-test suite passes with the change" % (sid, sid[:3]),
         "files": sorted(os.listdir(d)), "checks_run": runs,
         "caught": all(r["exit"] == 1 and r["violation_lines"] > 0 for r in runs if r["command"].split()[2] == sid[:3]),
